@@ -163,12 +163,23 @@ def one(dir_, layout, fault, shape, pos, rng):
 
             def h2(*a, **kw):
                 got.setdefault("calls", []).append(("h2", list(a), dict(kw)))
+            # variants: a pattern-based subscription (the router names the topic), publish options next to the ciphertext
+            psub = rng.random() < 0.4
             for i, (h, u) in enumerate(((h1, uri), (h2, uri2))):
-                B.subscribe(h, u)
+                if psub and i == 0:
+                    B.subscribe(h, "com.myapp.enc", options=SubscribeOptions(match="prefix"))
+                else:
+                    B.subscribe(h, u)
                 fw.settle()
                 rx(B, message.Subscribed(tb.sent[-1][0].request, 100 + i))
                 fw.settle()
-            A.publish(uri, *args, **kwargs)
+            popt = rng.choice([None, None, PublishOptions(acknowledge=True), PublishOptions(exclude_me=False), PublishOptions(retain=True, exclude=[7])])
+            if popt is not None:
+                pf = A.publish(uri, *args, options=popt, **kwargs)
+                if pf is not None:
+                    txaio.add_callbacks(pf, lambda r: None, lambda f: None)
+            else:
+                A.publish(uri, *args, **kwargs)
             fw.settle()
             pm = ta.sent[-1][0]
             obs["encOnWire"] = pm.enc_algo == "cryptobox" and pm.payload is not None
@@ -180,9 +191,10 @@ def one(dir_, layout, fault, shape, pos, rng):
                     payload = tamper(payload, pos)
                 if fault == "uriswap":
                     sub = 101            # the ciphertext for topic1 arrives on the subscription for topic2
-                ev = message.Event(sub, 555, payload=payload, enc_algo=pm.enc_algo, enc_key=pm.enc_key, enc_serializer=pm.enc_serializer)
+                ev = message.Event(sub, 555, payload=payload, enc_algo=pm.enc_algo, enc_key=pm.enc_key, enc_serializer=pm.enc_serializer,
+                                   topic=(uri if (psub and sub == 100) else None))
             else:
-                ev = message.Event(sub, 555, args=pm.args, kwargs=pm.kwargs)
+                ev = message.Event(sub, 555, args=pm.args, kwargs=pm.kwargs, topic=(uri if (psub and sub == 100) else None))
             rx(B, ev)
             fw.settle()
             calls = got.get("calls", [])
@@ -270,6 +282,8 @@ def one(dir_, layout, fault, shape, pos, rng):
             for i, (e, u) in enumerate(((ep, uri), (ep2, uri2))):
                 if pattern and i == 0:
                     B.register(e, "com.myapp.enc.proc", options=RegisterOptions(match="prefix"))
+                elif i == 0 and rng.random() < 0.3:
+                    B.register(e, u[len("com.myapp.enc."):], prefix="com.myapp.enc.")       # the URI given in two parts
                 else:
                     B.register(e, u)
                 fw.settle()
